@@ -19,17 +19,22 @@ READERS = r"(read|skip)_(null|boolean|int|long|float|double|bytes|utf8|fixed|enu
 PROPS = {
     "C01": dict(
         functions=[(ENC, r"BinaryEncoder\..*", "default"), (DEC, r"BinaryDecoder\..*", "default"),
-                   (W, WRITERS, "default"), (R, READERS, "default"), (VP, r"_validate.*", "default")],
+                   (W, WRITERS, "default"), (R, READERS, "default"), (VP, r"_validate.*", "default"),
+                   # the public single-datum entry points on a parsed schema (contracts/api.py)
+                   (W, r"schemaless_writer", "default"), (R, r"schemaless_reader", "default"),
+                   ("fastavro/_schema_py.py", r"parse_schema", "parsed")],
         lemmas=WLEMMAS,
         bounded="C01", level="other",
     ),
     "C02": dict(
-        functions=[(ENC, r"BinaryEncoder\..*", "default"), (W, WRITERS, "default"), (VP, r"_validate.*", "default")],
+        functions=[(ENC, r"BinaryEncoder\..*", "default"), (W, WRITERS, "default"), (VP, r"_validate.*", "default"),
+                   (W, r"schemaless_writer", "default"), ("fastavro/_schema_py.py", r"parse_schema", "parsed")],
         lemmas=WLEMMAS,
         bounded="C02", level="other",
     ),
     "C03": dict(
-        functions=[(DEC, r"BinaryDecoder\..*", ".*"), (R, READERS, "(default|badindex)")],
+        functions=[(DEC, r"BinaryDecoder\..*", ".*"), (R, READERS, "(default|badindex|short|bareshort)"),
+                   (R, r"schemaless_reader", "default"), ("fastavro/_schema_py.py", r"parse_schema", "parsed")],
         lemmas=["wf_branch_at"],
         bounded="C03", level="other",
     ),
@@ -38,20 +43,26 @@ PROPS = {
     # C04 / C07: codec block writers and the Writer's operations (what each appends to the user's stream,
     # what stays in the pending buffer; a failed write changes nothing).  Reader side and header: bounded.
     "C04": dict(functions=[(W, r"(null|deflate|bzip2|xz)_write_block", "default"), (W, r"Writer\.(dump|write|flush)", "default"),
-                           (R, CREAD, "default"), (DEC, r"BinaryDecoder\.read_long", "blockstart"), (R, r"read_long", "bare")],
-                lemmas=[], bounded="C04", level="other"),
+                           (R, CREAD, "default"), (DEC, r"BinaryDecoder\.read_long", "blockstart"), (R, r"read_long", "bare"),
+                           (W, r"write_header", "default")],
+                lemmas=["map_step", "allstr_bridge", "allvalid_bridge", "bytes_valid_conform", "header_conforms", "header_schema_ok",
+                        "allvalid_r_append", "allstr_r_append", "allvalid_r_replace", "nth_concat_left", "nth_concat_right", "nth_of_update",
+                        "nth_at_update", "split_at"],
+                bounded="C04", level="other"),
     # C05: reader side against the layout specification (FILE_BLOCKS: any number of blocks, any counts incl. 0,
     # any partition inside the records); writer side: what each Writer operation appends (as C04)
     "C05": dict(functions=[(R, CREAD, "default"), (DEC, r"BinaryDecoder\.read_long", "blockstart"), (R, r"read_long", "bare"),
-                           (W, r"(null|deflate|bzip2|xz)_write_block", "default"), (W, r"Writer\.(dump|flush)", "default")],
-                lemmas=[], bounded="C05", level="other"),
+                           (W, r"(null|deflate|bzip2|xz)_write_block", "default"), (W, r"Writer\.(dump|flush)", "default"),
+                           (W, r"write_header", "default")],
+                lemmas=["map_step", "allstr_bridge", "allvalid_bridge", "bytes_valid_conform", "header_conforms", "header_schema_ok"],
+                bounded="C05", level="other"),
     # C06: behaviour `short` (NO assumption about the input) of the decoder, of every reader (generated:
     # contracts/read_short.py), of the codec block readers and of the container iterators: a call that returns has not
     # had a read come back short, and the iterators end normally only when the input is exhausted exactly where a block
     # would start (read_long[short]: EOFError exactly when there is nothing at all to read); plus the exact-consumption
     # contracts of the decoder.  Which records come out of a cut file (a prefix of what was written) is bounded.
     "C06": dict(functions=[(DEC, r"BinaryDecoder\..*", ".*"), (R, r"skip_sync", "default"),
-                           (R, r"read_(null|boolean|int|long|float|double|bytes|utf8|fixed|enum|array|map|union|record|data)", "short|bareshort"),
+                           (R, r"(read|skip)_(null|boolean|int|long|float|double|bytes|utf8|fixed|enum|array|map|union|record|data)", "short|bareshort"),
                            (R, r"(null|deflate|bzip2|xz)_read_block", "short"),
                            (R, r"(_iter_avro_records|_iter_avro_blocks|Block\.__iter__)", "short")],
                 lemmas=["wf_branch_at"], bounded="C06", level="other"),
@@ -77,7 +88,9 @@ PROPS = {
     # C10: every validator returns exactly VALID (the statement's predicate) in the non-raising mode; the
     # raising mode, validate()/validate_many() (which parse first) and the writer agreement are bounded
     "C10": dict(functions=[(VP, r"_validate.*", ".*"), ("fastavro/_schema_py.py", r"schema_name", ".*"),
-                           (W, r"Writer\.write", "validating")],
+                           (W, r"Writer\.write", "validating"),
+                           (VP, r"validate", "default|raising"), (VP, r"validate_many", "default"),
+                           ("fastavro/_schema_py.py", r"parse_schema", "parsed")],
                 lemmas=[], bounded="C10", level="other"),
     # C11: the name rule (schema_name) and the default-kind rule (_default_matches_schema) are under contract;
     # parse_schema itself is bounded -- the level stays exploration
@@ -86,7 +99,9 @@ PROPS = {
     "C12": dict(functions=[("fastavro/_schema_py.py", r"parse_schema", "parsed")], lemmas=[], bounded="C12", level="exploration"),
     # C13: the recursive canonical-form writer against PCF (spec/canon.py) on parsed schemas; parse_schema (full
     # names, namespaces dropped), fixed point, same encoding and the cosmetic-edit invariance are bounded
-    "C13": dict(functions=[("fastavro/_schema_py.py", r"_to_parsing_canonical_form", "default")], lemmas=[], bounded="C13", level="other"),
+    "C13": dict(functions=[("fastavro/_schema_py.py", r"_to_parsing_canonical_form", "default"),
+                           ("fastavro/_schema_py.py", r"to_parsing_canonical_form", "default"),
+                           ("fastavro/_schema_py.py", r"parse_schema", "parsed0")], lemmas=[], bounded="C13", level="other"),
     "C14": dict(functions=[("fastavro/_schema_common.py", r"rabin_fingerprint", "default"), ("fastavro/_schema_py.py", r"fingerprint", "default")],
                 lemmas=[], bounded="C14", level="proof"),
     "C15": dict(functions=[], lemmas=[], bounded="C15", level="exploration"),
@@ -98,15 +113,19 @@ PROPS = {
     # variants), read back in UTC / naive -- datetime arithmetic through assumed contracts of the library;
     # uuid and read_decimal are bounded
     "C16": dict(functions=[("fastavro/_logical_writers_py.py", r"prepare_(time_millis|time_micros|date|bytes_decimal|fixed_decimal|timestamp_millis|timestamp_micros|local_timestamp_millis|local_timestamp_micros)", "default"),
-                           ("fastavro/_logical_readers_py.py", r"read_(time_millis|time_micros|date|timestamp_millis|timestamp_micros|local_timestamp_millis|local_timestamp_micros)", "default")],
+                           ("fastavro/_logical_readers_py.py", r"read_(time_millis|time_micros|date|timestamp_millis|timestamp_micros|local_timestamp_millis|local_timestamp_micros)", "default"),
+                           # composition with the binary codec: one behaviour of write_data / read_data per logical type
+                           (W, r"write_data", r"(date|time-millis|time-micros|timestamp-millis|timestamp-micros|local-timestamp-millis|local-timestamp-micros|bytes-decimal|fixed-decimal)"),
+                           (R, r"read_data", r"(date|time-millis|time-micros|timestamp-millis|timestamp-micros|local-timestamp-millis|local-timestamp-micros)")],
                 lemmas=["time_millis_roundtrip", "time_micros_roundtrip", "time_millis_onto", "time_micros_onto",
                         "pow2_step", "pow2_mono", "pow10_pos", "digit_at", "tnth_left", "digits_prefix", "zeros_len", "digits_zeros"],
-                bounded="C16", level="exploration"),
+                bounded="C16", level="other"),
     # C19: _inject_schema returns INJ (spec/inject.py): the loaded type inlined at its FIRST use, depth first, left to
     # right, namespace-relative references resolved; the loader around it (files, retry loop) is bounded
     "C19": dict(functions=[("fastavro/_schema_py.py", r"_inject_schema", "default")], lemmas=[], bounded="C19", level="exploration"),
     # C20: gen_data for every schema without logical types; counts / logical types / writer acceptance bounded
-    "C20": dict(functions=[("fastavro/utils.py", r"(_randbytes|_gen_utf8|gen_data)", "default")],
+    "C20": dict(functions=[("fastavro/utils.py", r"(_randbytes|_gen_utf8|gen_data|generate_many)", "default"),
+                           ("fastavro/_schema_py.py", r"parse_schema", "parsed")],
                 lemmas=["any_valid_at", "genok_at", "all_str_at", "wf_branch_at", "allvalid_r_append", "allvalid_bridge",
                         "allstr_r_append", "allstr_bridge", "allvalid_r_replace", "map_step", "nth_of_update", "nth_at_update", "nth_concat_left", "nth_concat_right", "split_at", "dset_other",
                         "dset_same", "rec_frame", "rec_bridge", "not_among_at"], bounded="C20", level="other"),
